@@ -1505,4 +1505,355 @@ Proof.
   intros (W & A & U). constructor; cbn; auto.
   - constructor; cbn; auto. intros s _ k. apply gamma_top.
 Qed.
+
+(* ------------------------------------------------------------ the register machine *)
+Variable dupf : var -> var.
+Variable univ : list var.
+Definition CF : rconf := mkC P dupf univ.
+
+Definition cset := cstate -> Prop.
+Definition cget (cs : list cset) (r : reg) : cset := nth r cs (fun _ => False).
+Fixpoint csetr (cs : list cset) (r : reg) (v : cset) : list cset :=
+  match cs, r with
+  | [], _ => []
+  | _ :: t, O => v :: t
+  | h :: t, S r' => h :: csetr t r' v
+  end.
+
+Definition reg_of (o : rop) : reg :=
+  match o with
+  | OTop r | OBot r | OCopy r _ | OInit r _ | OMk r _ _ _ | OFree r _ _ | OLd r _ _ _ _ | OSt r _ _ _
+  | OGep r _ _ _ _ _ _ | ORcopy r _ _ | OAssumeRef r _ _ | OSelRef r _ _ _ _ _ | OTag r _ _
+  | OAssign r _ _ | OArith r _ _ _ _ | OAssume r _ | OHavoc r _ _
+  | OJoin r _ _ | OMeet r _ _ | OWiden r _ _ | ONarrow r _ _ => r
+  end.
+
+(* the concrete operation on sets of states corresponding to each abstract one *)
+Definition cstepS (cs : list cset) (o : rop) : list cset :=
+  match o with
+  | OTop r => csetr cs r cinit
+  | OBot r => csetr cs r (fun _ => False)
+  | OCopy r s => csetr cs r (cget cs s)
+  | OJoin r s t | OWiden r s t => csetr cs r (fun c => cget cs s c \/ cget cs t c)
+  | OMeet r s t | ONarrow r s t => csetr cs r (fun c => cget cs s c /\ cget cs t c)
+  | _ => csetr cs (reg_of o) (fun c' => exists c, cget cs (reg_of o) c /\ cstep o c c')
+  end.
+
+(* side conditions: well-typed CrabIR (kinds of the operands) and the canonical form of the
+   expressions handed over by the front end *)
+Definition op_ok (o : rop) : Prop :=
+  match o with
+  | OInit _ g => is_rgn g = true
+  | OMk _ p g _ => is_rgn p = false
+  | OLd _ x p g isr =>
+    is_rgn x = false /\ is_rgn p = false /\ is_rgn g = true /\ is_rgn (dupf g) = false /\ dupf g <> x /\
+    (isr = true -> is_refrgn g = true) /\ (is_refv x = true -> isr = true)
+  | OSt _ p g v => is_rgn p = false /\ is_rgn g = true /\ sval_ok g v
+  | OGep _ p2 g2 p1 g1 off addr =>
+    is_rgn p2 = false /\ is_rgn p1 = false /\ nonrgn_exp off /\ nonrgn_exp addr /\
+    ~ In p2 (map snd (le_terms off)) /\ (forall s, eval_le addr s = s p1 + eval_le off s) /\
+    (is_refv p2 = true -> is_refv p1 = true)
+  | ORcopy _ l g => is_rgn l = true /\ is_rgn g = true /\ l <> g /\ is_refrgn l = is_refrgn g
+  | OAssumeRef _ rc e => rcst_ok rc e
+  | OSelRef _ p g a1 a2 ne => is_rgn p = false /\ ne = le_var p /\ arm_ok p a1 /\ arm_ok p a2
+  | OTag _ g _ => is_rgn g = true
+  | OAssign _ x e => is_rgn x = false /\ is_refv x = false /\ nonrgn_exp e
+  | OArith _ _ x y z =>
+    is_rgn x = false /\ is_refv x = false /\ is_rgn y = false /\ (forall v, z = OVar v -> is_rgn v = false)
+  | OAssume _ cs => forall k, In k cs -> wf_lc k /\ nonrgn_exp (lc_exp k)
+  | OHavoc _ v k =>
+    match k with
+    | KRegion => is_rgn v = true
+    | KRef => is_rgn v = false
+    | KScalar => is_rgn v = false /\ is_refv v = false
+    end
+  | _ => True
+  end.
+
+Definition rels (rs : list rval) (cs : list cset) : Prop :=
+  length rs = length cs /\ forall r c, cget cs r c -> relv (vget rs r) c.
+
+Lemma vget_vset rs r v r' : (r < length rs)%nat ->
+  vget (vset rs r v) r' = if Nat.eqb r' r then v else vget rs r'.
+Proof.
+  revert r r'. induction rs as [|h t IH]; simpl; intros r r' L; [lia|].
+  destruct r, r'; simpl; auto. apply IH. lia.
+Qed.
+Lemma vset_oob rs r v : (length rs <= r)%nat -> vset rs r v = rs.
+Proof. revert r. induction rs as [|h t IH]; simpl; intros r L; auto. destruct r; [lia|]. f_equal. apply IH. lia. Qed.
+Lemma cget_csetr cs r v r' : (r < length cs)%nat ->
+  cget (csetr cs r v) r' = if Nat.eqb r' r then v else cget cs r'.
+Proof.
+  revert r r'. induction cs as [|h t IH]; simpl; intros r r' L; [lia|].
+  destruct r, r'; simpl; auto. apply IH. lia.
+Qed.
+Lemma csetr_oob cs r v : (length cs <= r)%nat -> csetr cs r v = cs.
+Proof. revert r. induction cs as [|h t IH]; simpl; intros r L; auto. destruct r; [lia|]. f_equal. apply IH. lia. Qed.
+Lemma vset_length rs r v : length (vset rs r v) = length rs.
+Proof. revert r. induction rs as [|h t IH]; simpl; intros r; auto. destruct r; simpl; auto. Qed.
+Lemma csetr_length cs r v : length (csetr cs r v) = length cs.
+Proof. revert r. induction cs as [|h t IH]; simpl; intros r; auto. destruct r; simpl; auto. Qed.
+
+Lemma rels_set rs cs r (a : rval) (cv : cset) :
+  rels rs cs -> (forall c, cv c -> relv a c) -> rels (vset rs r a) (csetr cs r cv).
+Proof.
+  intros [L R] H. split. { rewrite vset_length, csetr_length; auto. }
+  intros r' c. destruct (Nat.lt_ge_cases r (length rs)) as [I|O].
+  - rewrite vget_vset by auto. rewrite cget_csetr by lia. destruct (Nat.eqb r' r); auto.
+  - rewrite vset_oob by auto. rewrite csetr_oob by lia. auto.
+Qed.
+
+Lemma rels_unary rs cs o f :
+  rels rs cs ->
+  (forall a c c', rel a c -> cstep o c c' -> relv (f a) c') ->
+  rels (vset rs (reg_of o) (lift f (vget rs (reg_of o))))
+       (csetr cs (reg_of o) (fun c' => exists c, cget cs (reg_of o) c /\ cstep o c c')).
+Proof.
+  intros R H. apply rels_set; auto. intros c' (c & G & S).
+  destruct R as [_ R]. specialize (R _ _ G). destruct (vget rs (reg_of o)) as [a|]; [|elim R].
+  cbn [lift]. eapply H; eauto.
+Qed.
+
+Theorem rstep_sound rs cs o rs' :
+  rels rs cs -> op_ok o -> rstep CF rs o = Some rs' -> rels rs' (cstepS cs o).
+Proof.
+  intros R OK ST. pose proof R as [L RR].
+  destruct o; cbn [rstep cstepS c_params c_dup c_univ CF reg_of] in *;
+    try (inversion ST; subst rs'; clear ST).
+  - (* top *) apply rels_set; auto. intros c. apply rel_top.
+  - (* bot *) apply rels_set; auto.
+  - (* copy *) apply rels_set; auto.
+  - (* init *)
+    destruct (vget rs r) as [a|] eqn:V.
+    + destruct (t_init P g a) as [a'|] eqn:T; [|discriminate]. inversion ST; subst rs'.
+      apply rels_set; auto. intros c' (c & G & S). specialize (RR _ _ G). rewrite V in RR.
+      eapply t_init_sound; eauto.
+    + inversion ST; subst rs'. split; [rewrite csetr_length; auto|].
+      intros r' c. destruct (Nat.lt_ge_cases r (length cs)) as [I|O].
+      * rewrite cget_csetr by auto. destruct (Nat.eqb_spec r' r) as [->|N]; auto.
+        intros H. destruct H as (c0 & G & _). specialize (RR _ _ G). rewrite V in RR. elim RR.
+      * rewrite csetr_oob by auto. auto.
+  - (* mk *) apply (rels_unary rs cs (OMk r p g site)); auto. intros. eapply t_mk_sound; eauto.
+  - (* free *) apply (rels_unary rs cs (OFree r g p)); auto. intros a c c' Ra S. cbn in S. subst. apply t_free_sound; auto.
+  - (* load *) destruct OK as (K1 & K2 & K3 & K4 & K5 & K6 & K7).
+    apply (rels_unary rs cs (OLd r x p g x_is_ref)); auto. intros. eapply t_load_sound; eauto.
+  - (* store *) destruct OK as (K1 & K2 & K3).
+    apply (rels_unary rs cs (OSt r p g v)); auto. intros. eapply t_store_sound; eauto.
+  - (* gep *) destruct OK as (K1 & K2 & K3 & K4 & K5 & K6 & K7).
+    apply (rels_unary rs cs (OGep r p2 g2 p1 g1 offset addr)); auto. intros a c c' Ra S. cbn in S.
+    eapply t_gep_sound; eauto.
+  - (* region_copy *) destruct OK as (K1 & K2 & K3 & K4).
+    apply (rels_unary rs cs (ORcopy r l g)); auto. intros. eapply t_rcopy_sound; eauto.
+  - (* ref_assume *)
+    apply (rels_unary rs cs (OAssumeRef r c addr_exp)); auto. intros a c0 c' Ra S. cbn in S.
+    eapply t_assume_ref_sound; eauto.
+  - (* select_ref *) destruct OK as (K1 & -> & K3 & K4).
+    apply (rels_unary rs cs (OSelRef r p g a1 a2 (le_var p))); auto. intros a c c' Ra S. cbn in S.
+    unfold t_selref. apply v_join_sound. destruct S as [S|S]; [left|right]; eapply sel_arm_sound; eauto.
+  - (* add_tag *) apply (rels_unary rs cs (OTag r g t)); auto. intros. cbn [relv]. eapply t_tag_sound; eauto.
+  - (* assign *) destruct OK as (K1 & K2 & K3).
+    apply (rels_unary rs cs (OAssign r x e)); auto. intros. eapply t_assign_sound; eauto.
+  - (* arith *) destruct OK as (K1 & K2 & K3 & K4).
+    apply (rels_unary rs cs (OArith r op x y z)); auto. intros. eapply t_arith_sound; eauto.
+  - (* assume *) apply (rels_unary rs cs (OAssume r cs0)); auto. intros. eapply t_assume_sound; eauto.
+  - (* havoc *) apply (rels_unary rs cs (OHavoc r v k)); auto. intros a c c' Ra S.
+    destruct k; cbn in S.
+    + destruct OK as [K1 K2]. apply (t_havoc_scalar_sound a c c' v KScalar); auto; congruence.
+    + apply (t_havoc_scalar_sound a c c' v KRef); auto; congruence.
+    + apply (t_havoc_region_sound a c c' r v); auto.
+  - (* join *) apply rels_set; auto. intros c [G|G]; apply v_join_sound; [left|right]; apply RR; auto.
+  - (* meet *) apply rels_set; auto. intros c [G1 G2]. unfold v_meet. apply v_meet_gen_sound.
+    + intros; apply e_meet_sound; auto.
+    + apply RR; auto.
+    + apply RR; auto.
+  - (* widen *) apply rels_set; auto. intros c [G|G]; apply v_widen_sound; [left|right]; apply RR; auto.
+  - (* narrow *) apply rels_set; auto. intros c [G1 G2]. unfold v_narrow. apply v_meet_gen_sound.
+    + intros; apply e_narrow_sound; auto.
+    + apply RR; auto.
+    + apply RR; auto.
+Qed.
+
+Theorem region_history_sound h : Forall op_ok h -> forall rs cs rs',
+  rels rs cs -> rrun CF rs h = Some rs' -> rels rs' (fold_left cstepS h cs).
+Proof.
+  induction h as [|o t IH]; simpl; intros OK rs cs rs' R RUN.
+  - inversion RUN; subst; auto.
+  - inversion OK; subst. destruct (rstep CF rs o) as [rs1|] eqn:ST; [|discriminate].
+    eapply IH; eauto. eapply rstep_sound; eauto.
+Qed.
+
+Lemma rels_top n : rels (repeat (Some r_top) n) (repeat cinit n).
+Proof.
+  split. { rewrite !repeat_length; auto. }
+  intros r c G. unfold vget, cget in *.
+  destruct (Nat.lt_ge_cases r n) as [I|O].
+  - rewrite nth_indep with (d' := Some r_top) by (rewrite repeat_length; auto).
+    rewrite nth_repeat. apply rel_top. rewrite nth_indep with (d' := cinit) in G by (rewrite repeat_length; auto).
+    rewrite nth_repeat in G. exact G.
+  - rewrite nth_overflow in G by (rewrite repeat_length; auto). elim G.
+Qed.
+
+(* ---- soundness of the answers ---- *)
+Theorem q_at_sound rs cs r c x : rels rs cs -> cget cs r c -> gamma (q_at (vget rs r) x) (c_st c x).
+Proof.
+  intros [_ R] G. specialize (R _ _ G). destruct (vget rs r) as [a|]; [|elim R].
+  cbn [q_at]. apply rel_at. apply (r_core _ _ R).
+Qed.
+
+Theorem q_null_sound rs cs r c p : rels rs cs -> cget cs r c ->
+  (q_null (vget rs r) p = BTrue -> c_st c p = 0) /\ (q_null (vget rs r) p = BFalse -> c_st c p <> 0) /\
+  q_null (vget rs r) p <> BBot.
+Proof.
+  intros [_ R] G. specialize (R _ _ G). destruct (vget rs r) as [a|]; [|elim R].
+  cbn [q_null]. pose proof (r_core _ _ R) as RC. repeat split.
+  - eapply is_null_true; eauto.
+  - eapply is_null_false; eauto.
+  - unfold is_null. destruct (negb _); [discriminate|].
+    destruct (lb (get (r_base a) p)) as [|[| |]|]; try discriminate;
+      destruct (ub (get (r_base a) p)) as [|[| |]|]; discriminate.
+Qed.
+
+Theorem q_sites_sound rs cs r c p ss : rels rs cs -> cget cs r c -> is_refv p = true ->
+  q_sites (vget rs r) p = Some ss ->
+  c_st c p = 0 \/ exists site, c_asite c (c_st c p) = Some site /\ In site ss.
+Proof.
+  intros [_ R] G K Q. specialize (R _ _ G). destruct (vget rs r) as [a|]; [|elim R].
+  cbn [q_sites] in Q. pose proof (r_svar _ _ R p K) as X. rewrite Q in X. exact X.
+Qed.
+
+Theorem q_tags_sound rs cs r c g T : rels rs cs -> cget cs r c -> is_rgn g = true ->
+  q_tags (vget rs r) g = Some T -> forall x t, In t (c_htg c g x) -> In t T.
+Proof.
+  intros [_ R] G K Q x t I. specialize (R _ _ G). destruct (vget rs r) as [a|]; [|elim R].
+  cbn [q_tags] in Q. pose proof (r_trgn _ _ R g K x) as X. rewrite Q in X. apply X. exact I.
+Qed.
+
+Theorem q_count_sound rs cs r c g : rels rs cs -> cget cs r c ->
+  cgamma (fst (q_count (vget rs r) g)) (creators c g) /\
+  (singleton_count (fst (q_count (vget rs r) g)) = true ->
+   forall a1 a2, In a1 (addrs c g) -> In a2 (addrs c g) -> a1 = a2).
+Proof.
+  intros [_ R] G. specialize (R _ _ G). destruct (vget rs r) as [a|]; [|elim R].
+  cbn [q_count]. pose proof (rc_count _ _ (r_core _ _ R) g) as CG. split; auto.
+  intros S a1 a2 I1 I2. destruct (cg_singleton _ _ S CG) as [E|(v & E)]; unfold creators, addrs in *.
+  - destruct (c_made c g); [elim I1 | discriminate].
+  - destruct (c_made c g) as [|[v1 x1] [|? ?]]; try discriminate. simpl in *.
+    destruct I1 as [<-|[]]. destruct I2 as [<-|[]]. reflexivity.
+Qed.
+
+(* loads: the variable loaded through a reference describes the value of the cell *)
+Theorem load_sound rs cs rs' r x p g isr c z :
+  rels rs cs -> op_ok (OLd r x p g isr) -> rstep CF rs (OLd r x p g isr) = Some rs' ->
+  cget cs r c -> (r < length cs)%nat -> valid c g (c_st c p) -> c_hp c g (c_st c p) = Some z ->
+  gamma (q_at (vget rs' r) x) z.
+Proof.
+  intros R OK ST G L V H.
+  pose proof (rstep_sound _ _ _ _ R OK ST) as R'.
+  set (c' := mkCS (upd (c_st c) x z) (c_hp c) (c_made c) (c_asite c)
+                  (fupd (c_vtg c) x (c_htg c g (c_st c p))) (c_htg c)).
+  assert (G' : cget (cstepS cs (OLd r x p g isr)) r c').
+  { cbn [cstepS reg_of]. rewrite cget_csetr by auto. rewrite Nat.eqb_refl.
+    exists c. split; auto. cbn. split; auto. exists z. split; auto. }
+  pose proof (q_at_sound _ _ r c' x R' G') as X. cbn in X. rewrite upd_same in X. exact X.
+Qed.
+
+(* ---- the property as a predicate on an arbitrary implementation ----
+   An implementation of a region analysis over some statement language [Op]: abstract values,
+   a (partial: it may abort) transfer function on registers, and the four kinds of answers. *)
+Record rmachine (Op : Type) := mkM {
+  m_val : Type;
+  m_top : m_val;
+  m_step : list m_val -> Op -> option (list m_val);
+  m_at : m_val -> var -> itv;
+  m_null : m_val -> var -> bv;
+  m_sites : m_val -> var -> dset;
+  m_tags : m_val -> var -> dset
+}.
+Fixpoint m_run {Op} (M : rmachine Op) (vs : list (m_val Op M)) (h : list Op) : option (list (m_val Op M)) :=
+  match h with
+  | [] => Some vs
+  | o :: t => match m_step Op M vs o with None => None | Some vs' => m_run M vs' t end
+  end.
+
+(* Property C15 for an implementation M, a concrete semantics of its statements on sets of
+   states and an admissibility predicate on statements (well-typed CrabIR): after every
+   admissible history from top, for every concrete state reached by the same operations,
+   every variable (in particular every variable loaded through a reference from a cell
+   written before, and every address) is inside its abstract value, definite null / non-null
+   answers are right, reported allocation sites and tags contain the actual ones. *)
+Definition C15_statement (Op : Type) (M : rmachine Op) (csem : list cset -> Op -> list cset)
+           (ok : Op -> Prop) : Prop :=
+  forall h n vs, Forall ok h -> m_run M (repeat (m_top Op M) n) h = Some vs ->
+  forall r c, cget (fold_left csem h (repeat cinit n)) r c ->
+  forall v, nth_error vs r = Some v ->
+    (forall x, gamma (m_at Op M v x) (c_st c x)) /\
+    (forall p, (m_null Op M v p = BTrue -> c_st c p = 0) /\ (m_null Op M v p = BFalse -> c_st c p <> 0)) /\
+    (forall p ss, is_refv p = true -> m_sites Op M v p = Some ss ->
+       c_st c p = 0 \/ exists site, c_asite c (c_st c p) = Some site /\ In site ss) /\
+    (forall g T, is_rgn g = true -> m_tags Op M v g = Some T -> forall x t, In t (c_htg c g x) -> In t T).
+
+(* the model: RegionCore over the interval domain, the modelled statements *)
+Definition core_machine : rmachine rop :=
+  mkM rop rval (Some r_top) (rstep CF) q_at q_null q_sites q_tags.
+
+Lemma m_run_core vs h : m_run core_machine vs h = rrun CF vs h.
+Proof. revert vs. induction h as [|o t IH]; simpl; intros vs; auto. destruct (rstep CF vs o); auto. Qed.
+
+Lemma vget_nth_error vs r v : nth_error vs r = Some v -> vget vs r = v.
+Proof. intros H. unfold vget. apply nth_error_nth. exact H. Qed.
+
+Theorem core_machine_sound : C15_statement rop core_machine cstepS op_ok.
+Proof.
+  intros h n vs OK RUN r c G v NV. rewrite m_run_core in RUN.
+  pose proof (region_history_sound h OK _ _ _ (rels_top n) RUN) as R.
+  apply vget_nth_error in NV. cbn [m_at m_null m_sites m_tags core_machine]. rewrite <- NV.
+  split; [|split; [|split]].
+  - intros x. eapply q_at_sound; eauto.
+  - intros p. destruct (q_null_sound _ _ r c p R G) as (A & B & _). split; auto.
+  - intros p ss K Q. eapply q_sites_sound; eauto.
+  - intros g T K Q. eapply q_tags_sound; eauto.
+Qed.
 End WithKinds.
+
+(* ---- non-vacuity: a concrete run of  region_init; p := make_ref; store 5; x := load
+   (variables: x = 1, p = 2, dup = 9, region = 10) ---- *)
+Definition ex_is_rgn (v : var) : bool := N.eqb v 10.
+Definition ex_is_refv (v : var) : bool := N.eqb v 2.
+Definition ex_P : rparams := mkP true true.
+Definition ex_hist : list rop :=
+  [OInit 0%nat 10%N; OMk 0%nat 2%N 10%N 7; OSt 0%nat 2%N 10%N (SCst 5); OLd 0%nat 1%N 2%N 10%N false].
+
+Example ex_ok : Forall (op_ok ex_is_rgn (fun _ => false) ex_is_refv (fun _ => 9%N)) ex_hist.
+Proof.
+  repeat constructor; cbn; auto; try discriminate.
+Qed.
+
+Example ex_abstract :
+  exists s, rrun (CF ex_P (fun _ => 9%N) [10%N]) [Some r_top] ex_hist = Some [Some s] /\
+            get (r_base s) 1%N = iconst 5 /\ count s 10%N = ROne 2 /\ r_alloc s 2%N = Some [7].
+Proof. eexists. vm_compute. repeat split. Qed.
+
+Definition ex_c0 : cstate := mkCS (fun _ => 0) (fun _ _ => None) (fun _ => []) (fun _ => None) (fun _ => []) (fun _ _ => []).
+Example ex_concrete :
+  exists c, cget (fold_left cstepS ex_hist [cinit]) 0%nat c /\ c_st c 1%N = 5 /\ c_st c 2%N = 1000.
+Proof.
+  cbn [ex_hist fold_left cstepS csetr cget nth reg_of].
+  eexists. split.
+  - eexists. split.
+    + eexists. split.
+      * eexists. split.
+        -- exists ex_c0. split.
+           ++ repeat split; cbn; auto. intros g a z H. discriminate.
+           ++ cbn. reflexivity.
+        -- cbn. exists 1000. repeat split; try discriminate; reflexivity.
+      * cbn. split; [split; [discriminate | left; reflexivity] | reflexivity].
+    + cbn. split; [split; [discriminate | left; reflexivity]|].
+      exists 5. split; reflexivity.
+  - cbn. split; reflexivity.
+Qed.
+
+(* why fixes/regions-1 is needed: with small_range::increment itself a second reference
+   created through the same variable leaves the count at "exactly one" *)
+Lemma unrepaired_increment_refuted :
+  exists c L v, cgamma c L /\ ~ cgamma (sr_incr c (Z.of_N v)) (L ++ [Z.of_N v]).
+Proof. exists (ROne 7), [7], 7%N. split; [reflexivity|]. cbn. discriminate. Qed.
